@@ -90,6 +90,13 @@ void newlines_eat_start_end()
       log_rule_B("nl_end_of_file_min");
       pc = Chunk::GetTail();
 
+      // virtual braces (Pawn) are not written: the last line break comes before them
+      while (  pc->IsVBrace()
+            && pc->GetPrev()->IsNotNullChunk())
+      {
+         pc = pc->GetPrev();
+      }
+
       if (pc->IsNotNullChunk())
       {
          if (pc->Is(CT_NEWLINE))
